@@ -178,7 +178,7 @@ def coq_list(items):
     return "[" + "; ".join(items) + "]"
 
 
-def run_coq_cases(tag, header, case_terms, checker, shard=300, keep_dir=None):
+def run_coq_cases(tag, header, case_terms, checker, shard=300, keep_dir=None, case_type=None):
     """Evaluate [checker case] for every case term with vm_compute inside Coq.
     [checker] must have type  case -> option nat  (None = model and implementation agree,
     Some i = first differing step).  Returns the list of results (None / int) in order.
@@ -192,7 +192,7 @@ def run_coq_cases(tag, header, case_terms, checker, shard=300, keep_dir=None):
             path = os.path.join(d, name + ".v")
             with open(path, "w") as f:
                 f.write(header + "\n")
-                f.write("Definition cases := [\n" + ";\n".join(chunk) + "\n].\n")
+                f.write("Definition cases %s:= [\n" % ((": list (%s) " % case_type) if case_type else "") + ";\n".join(chunk) + "\n].\n")
                 f.write("Definition results := Eval vm_compute in (map (%s) cases).\n" % checker)
                 f.write("Definition render (r : option nat) : Z := match r with None => (-1)%Z | Some n => Z.of_nat n end.\n")
                 f.write("Eval vm_compute in (map render results).\n")
@@ -256,6 +256,9 @@ class Report:
         self.samples = []
         self.broken = []          # proof obligations / correspondences that no longer check
         self.notes = []
+        import glob
+        for f in glob.glob(os.path.join(VERIF, "replays", "%s-%s-*.json" % (prop, tier))):
+            os.remove(f)
 
     def violation(self, sig, what, replay):
         self.violations.append({"sig": sig, "what": what, "replay": replay})
@@ -331,3 +334,25 @@ def impl_env(extra=None):
     if extra:
         e.update(extra)
     return e
+
+
+def shrink_ops(ops, fails, rounds=15):
+    """greedy shrinking: fails(list of candidate op lists) -> list of bool (still failing?).
+    First tries dropping halves, then single operations."""
+    cur = [list(o) if isinstance(o, (list, tuple)) else o for o in ops]
+    for _ in range(rounds):
+        n = len(cur)
+        if n <= 1:
+            break
+        cands = []
+        if n >= 8:
+            q = n // 4
+            for i in range(0, n, q):
+                cands.append(cur[:i] + cur[i + q:])
+        cands += [cur[:i] + cur[i + 1:] for i in range(n)]
+        res = fails(cands)
+        hit = [i for i, r in enumerate(res) if r]
+        if not hit:
+            break
+        cur = cands[hit[0]]
+    return cur
